@@ -423,7 +423,9 @@ fn guards<'a>(apps: &'a [FlatApp], r: &'a Flat) -> Vec<(&'a FangD, String)> {
     out
 }
 
-/// Auth fangs of applications that do not enclose `r` but own the node `r`'s handler sits on.  An application's fangs
+/// Auth fangs of applications that do not enclose `r` but own the node `r`'s handler sits on or a node above it
+/// (since /repo 5efac73 a node takes over the fangs in effect at its parent: "fangs of an application run for every
+/// request whose path lies under its mount prefix").  An application's fangs
 /// are attached to every node of its own routing tree (its root, the nodes of its routes in their method tree, the
 /// nodes of the prefixes of mounts inside it in every method tree); when it is mounted, nodes that already exist at the
 /// same place (same static text, or a param whatever its name) are united with them and keep both fang lists.  Which
@@ -435,8 +437,8 @@ fn foreign_auth<'a>(apps: &'a [FlatApp], flat: &[Flat], r: &Flat) -> Vec<&'a Fan
     for (ai, a) in apps.iter().enumerate() {
         if r.chain.contains(&ai) || !a.fangs.iter().any(FangD::is_auth) { continue }
         let k0 = a.prefix.len();
-        let on_route = flat.iter().any(|r2| r2.chain.contains(&ai) && r2.method == r.method && (k0..=r2.segs.len()).any(|k| norm(&r2.segs[..k]) == key));
-        let on_mount = apps.iter().any(|b| b.chain.contains(&ai) && (k0..=b.prefix.len()).any(|k| norm(&b.prefix[..k]) == key));
+        let on_route = flat.iter().any(|r2| r2.chain.contains(&ai) && r2.method == r.method && (k0..=r2.segs.len()).any(|k| key.starts_with(&norm(&r2.segs[..k]))));
+        let on_mount = apps.iter().any(|b| b.chain.contains(&ai) && (k0..=b.prefix.len()).any(|k| key.starts_with(&norm(&b.prefix[..k]))));
         if on_route || on_mount { out.extend(a.fangs.iter().filter(|f| f.is_auth())) }
     }
     out
